@@ -449,7 +449,9 @@ def r5e_grid_counts_truncate(repo: Repo, rep):
             if "grid" not in fi.name:
                 continue
             counts = []
-            for n_ in ast.walk(fi.node):
+            from ..util import deref, single_defs
+            body = deref(fi.node, single_defs(fi.node))  # temporaries replaced by their values
+            for n_ in ast.walk(body):
                 if isinstance(n_, ast.Assign) and isinstance(n_.value, ast.Call) and attr_chain(n_.value.func) == "int" and n_.value.args \
                         and any(isinstance(x, ast.Call) and (attr_chain(x.func) or "").split(".")[-1] in ("sqrt", "cbrt", "pow") or (isinstance(x, ast.BinOp) and isinstance(x.op, ast.Pow)) for x in ast.walk(n_.value.args[0])):
                     counts.append(n_.value)
